@@ -336,6 +336,50 @@ def overlayWatched : List OverlaySpec → List Res
 def rfWatched (bodyOk : Bool) (overlays : List OverlaySpec) : Option (List Res) :=
   if bodyOk then some (overlayWatched overlays) else none
 
+/-! ## ResourceFunction: does an `overlayRef` provide the inputs its ValueFunction names -/
+
+/-- `{match.group("name") for match in (INPUTS_NAME_PATTERN.match(key) for key in dynamic_input_keys) if match}`
+    — a set of `str | None` -/
+def neededInputs (keys : List String) : List (Option String) :=
+  ((keys.filterMap inputsMatch).map (·.name)).eraseDups
+
+/-- `needed_inputs - provided_inputs`: `None` is never provided -/
+def missingInputs (keys provided : List String) : List (Option String) :=
+  (neededInputs keys).filter fun n =>
+    match n with
+    | some s => !provided.contains s
+    | none => true
+
+/-- `f"{x}"` -/
+def pyFormat : Option String → String
+  | some s => s
+  | none => "None"
+
+/-- `sorted(xs)` on `str | None` values: comparing a `str` with `None` is a `TypeError`
+    (only reached when there is something to compare) -/
+def pySortable (xs : List (Option String)) : Bool := xs.length ≤ 1 || xs.all (·.isSome)
+
+/-- the quoted names of the "expected the following inputs …" PermFail (set order is not modelled) -/
+def missingNames (style : JoinStyle) (missing : List (Option String)) : Except String (List String) :=
+  match style with
+  | .formatEach sorted =>
+    if sorted && !pySortable missing then .error "TypeError: '<' not supported between 'str' and 'NoneType'"
+    else .ok (missing.map fun m => "\"" ++ pyFormat m ++ "\"")
+  | .raw sorted =>
+    if sorted && !pySortable missing then .error "TypeError: '<' not supported between 'str' and 'NoneType'"
+    else if missing.all (·.isSome) then .ok (missing.filterMap id)
+    else .error "TypeError: sequence item: expected str instance, NoneType found"
+
+/-- the style of the current source (tied to it by `Props/C20.missing_join_style_matches_source`) -/
+def modelJoinStyle : JoinStyle := .formatEach false
+
+/-- the input check of one `overlayRef` entry whose ValueFunction is ready:
+    `none` = every named input is provided, `some names` = PermFail naming them -/
+def overlayInputsCheck (style : JoinStyle) (keys provided : List String) : Except String (Option (List String)) :=
+  let missing := missingInputs keys provided
+  if missing.isEmpty then .ok none
+  else (missingNames style missing).map some
+
 /-! ## FunctionTest: watched resources -/
 
 /-- `function_ref_spec_to_resource` -/
